@@ -3,6 +3,7 @@ package optionreflect
 import (
 	"math"
 	"math/bits"
+	"sort"
 	"strconv"
 	"unicode/utf8"
 
@@ -92,6 +93,12 @@ func walkOptionMap(fieldDesc protoreflect.FieldDescriptor, mp protoreflect.Map) 
 		}
 		out.Children = append(out.Children, kvChild)
 		return true
+	})
+
+	// Range visits the entries in no particular order; the text must not
+	// depend on it.
+	sort.SliceStable(out.Children, func(i, j int) bool {
+		return out.Children[i].Children[0].ScalarValue < out.Children[j].Children[0].ScalarValue
 	})
 
 	return out
